@@ -118,6 +118,16 @@ let sev = function
   | ERunRet b -> "runret " ^ sb b
   | EDropBegin -> "dropbegin" | EDropFields -> "~dropfields" | EDropEnd -> "dropend" | EEpilogue -> "epilogue"
   | EClo (u, c) -> Printf.sprintf "clo %d %d" (i u) (i c)
+  | ETarget (u, a, b) -> Printf.sprintf "target %d %d %s" (i u) (i a) (sb b)
+  | ERetTo (r, u, b) -> Printf.sprintf "retto %d %d %s" (i r) (i u) (sb b)
+  | ERetSent (r, v) -> Printf.sprintf "retsent %d %d" (i r) (i v)
+  | EIsZombie (a, b) -> Printf.sprintf "iszombie %d %s" (i a) (sb b)
+  | ESlabAdd (p, a) -> Printf.sprintf "slabadd %d %d" (i p) (i a)
+  | ESlabLen (p, n) -> Printf.sprintf "slablen %d %d" (i p) (zi n)
+  | ESetLogger l -> String.concat " " ("setlogger" :: List.map (fun x -> string_of_int (zi x)) l)
+  | ESetFilter l -> String.concat " " ("setfilter" :: List.map (fun x -> string_of_int (zi x)) l)
+  | ELogReq (id, l) -> Printf.sprintf "logreq %d %d" (zi id) (zi l)
+  | ELogCheck (l, b) -> Printf.sprintf "logcheck %d %s" (zi l) (sb b)
   | ESub (q, u) -> Printf.sprintf "sub %s %d" (sq q) (i u)
   | ERun (u, n) -> Printf.sprintf "run %d %d" (i u) (zi n)
   | EMeth (a, u, n) -> Printf.sprintf "meth %d %d %d" (i a) (i u) (zi n)
@@ -163,6 +173,16 @@ let pev (ws : string list) : ev option =
   | ["dropend"] -> Some EDropEnd | ["epilogue"] -> Some EEpilogue
   | ["clo"; u; c] -> Some (EClo (n u, n c))
   | ["sub"; q; u] -> Some (ESub (pq q, n u))
+  | ["target"; u; a; x] -> Some (ETarget (n u, n a, b x))
+  | ["retto"; r; u; x] -> Some (ERetTo (n r, n u, b x))
+  | ["retsent"; r; v] -> Some (ERetSent (n r, n v))
+  | ["iszombie"; a; x] -> Some (EIsZombie (n a, b x))
+  | ["slabadd"; p; a] -> Some (ESlabAdd (n p, n a))
+  | ["slablen"; p; x] -> Some (ESlabLen (n p, z x))
+  | "setlogger" :: l -> Some (ESetLogger (List.map z l))
+  | "setfilter" :: l -> Some (ESetFilter (List.map z l))
+  | ["logreq"; id; l] -> Some (ELogReq (z id, z l))
+  | ["logcheck"; l; x] -> Some (ELogCheck (z l, b x))
   | ["run"; u; t] -> Some (ERun (n u, z t))
   | ["meth"; a; u; t] -> Some (EMeth (n a, n u, z t))
   | ["prep"; a; u; t] -> Some (EPrep (n a, n u, z t))
